@@ -109,7 +109,12 @@ func runCallers(t []string) string {
 	if strings.HasPrefix(ms, "err:") {
 		ms = "err" // which of its checks fires first (clustering of the root's own tile entries, or the unreadable leaf) is not the point
 	}
-	return res + " makesync=" + ms
+	// a makesync that failed must not leave something behind that a later sync would take for a complete .sync file
+	sf := "none"
+	if b, err := os.ReadFile(path + ".sync"); err == nil && len(b) > 0 {
+		sf = fmt.Sprintf("LEFT-BEHIND(%d_bytes,%d_lines)", len(b), bytes.Count(b, []byte("\n")))
+	}
+	return res + " makesync=" + ms + " syncfile=" + sf
 }
 
 func (C17) RunGo(line string) string {
@@ -184,7 +189,7 @@ func (C17) Branch(line, goOut string) string {
 func (C17) Oracle(line, goOut string) string {
 	t := strings.Fields(line)
 	if t[0] == "callers" {
-		if goOut != "cluster=err-unchanged verify=err makesync=err" {
+		if goOut != "cluster=err-unchanged verify=err makesync=err syncfile=none" {
 			return "a leaf directory of the archive cannot be fetched, but a user of the enumeration did not report it (or cluster rewrote the archive): " + goOut
 		}
 		return ""
